@@ -34,6 +34,7 @@ CLAIMS = {
   design_ref='DESIGN.md section 4, C01',
   note='Trusted: Coq kernel; strict ASA device semantics (Cisco/Device.v); script parser and generator (vlib/cisco.py). Partial: object-group '
        'logic and multi-ACL flow are not proved; crypto maps, tunnel-groups, group-policies, users, pools, certificate maps are not modelled.',
+  extra_note=' ASA crypto maps with crypto ACLs, IKEv1 transform-sets and IKEv2 ipsec-proposals are generated separately and executed on Cisco/Vpn.v (device model and oracle without a convergence theorem).',
   technique='Coq proof of the ACL line core for all valid edit scripts + execution of the real script on a Coq device semantics'),
  'C02': dict(
   text='The numbering core of diffIOSACLs (resequence, numbered inserts, deletes, joined moves, direction-aware move suppression inside '
@@ -61,6 +62,7 @@ CLAIMS = {
        'sequence number, wrong configuration mode, duplicate route are refusals).',
   design_ref='DESIGN.md section 4, C08',
   note='Trusted: as C01; strictness rules of Cisco/Device.v are the property text. PAN-OS/NSX executability is under C03/C04.',
+  extra_note=' ASA crypto commands are executed on the strict model Cisco/Vpn.v.',
   technique='Coq proof for the ASA line core + strict Coq device executing real scripts'),
  'C10': dict(
   text='C10_asa_acl_resume_partial: after any prefix of the ASA line script the device list is again duplicate-free, and every valid edit '
@@ -68,6 +70,7 @@ CLAIMS = {
        'rendered by the Coq device, the real tool is run again on it, its script is executed on the Coq device, and a third compare must be silent.',
   design_ref='DESIGN.md section 4, C10',
   note='Trusted: as C01. Cuts between the halves of a joined command are covered by C10_device_states_stay_wellformed for the core only.',
+  extra_note=' ASA crypto: every prefix state of the crypto script is resumed on Cisco/Vpn.v (cuts inside the sub-mode block of an ipsec-proposal included); known finding F-C10-1 (entry left without peer).',
   technique='Coq resumability theorem for the line core + prefix-state replay of real scripts through the Coq device'),
  'C14': dict(
   text='C14_linux_routes_covered_stepwise: Coq theorem (all route lists, every prefix). ACL half: after every command of the real script the '
